@@ -11,11 +11,14 @@
      proxy.go 531-568          how the write context is set for a response
 
    Conventions:
-   - bucket grants: Conn.Write asks the local and the global bucket for their
-     remaining capacity (capacity - fill, > 0 whenever fn is called).  The model
-     takes [g : nat -> Z], the stream of min(local, global) remaining capacities,
-     one per non-empty chunk, as an argument: theorems quantify over all
-     positive streams; the driver instantiates it with the chunk sizes it saw.
+   - bucket grants: Conn.Write asks the connection's own (local) bucket and,
+     nested inside, the shape's shared (global, max_global_bandwidth) bucket for
+     their remaining capacity (capacity - fill, > 0 whenever fn is called).  The
+     model takes [g : nat -> Z * Z], the stream of (local, global) remaining
+     capacities, one pair per non-empty chunk, as an argument ([nested] is the
+     two-level computation of the chunk size); unshaped writes use the first
+     component (the listener's bucket).  Theorems quantify over all positive
+     streams; the driver instantiates both components with the chunk sizes it saw.
    - Go slice expressions that would panic give [RPanic]; loops carry fuel and
      give [RFuel] when it runs out; theorems exclude both.
    - CheckExistenceAndValidity (map still contains the regex and was not
@@ -158,7 +161,13 @@ Definition take (n : Z) (b : bytes) : option (bytes * bytes) :=
   else None.
 
 (* WriteDefaultBuckets: chunks limited by the listener bucket's remaining capacity. *)
-Fixpoint default_loop (fuel : nat) (g : nat -> Z) (i : nat) (b : bytes) (total : Z)
+(* conn.go 410-423: outer closure on the local bucket  max = min(remaining, amountToWrite);
+   if max == 0 return;  inner closure on the global bucket  max = min(rem, max);
+   conn.Write(b[:max]);  the loop then advances by that same max *)
+Definition nested (rl rg amt : Z) : Z :=
+  let m := Z.min rl amt in if m =? 0 then 0 else Z.min rg m.
+
+Fixpoint default_loop (fuel : nat) (g : nat -> Z * Z) (i : nat) (b : bytes) (total : Z)
   : nat * list ev * res :=
   match b with
   | [] => (i, [], ROk total)
@@ -167,7 +176,7 @@ Fixpoint default_loop (fuel : nat) (g : nat -> Z) (i : nat) (b : bytes) (total :
     | O => (i, [], RFuel)
     | S f =>
       let len := Zlength b in
-      let mx := if g i >=? len then len else g i in
+      let mx := if fst (g i) >=? len then len else fst (g i) in
       match take mx b with
       | None => (i, [], RPanic)
       | Some (chunk, rest) =>
@@ -181,7 +190,7 @@ Definition ev_of (k : akind) : ev :=
   match k with KHalt d => Sleep d | KClose => ForceClose | KBw b => SetBw b end.
 
 (* The shaped loop of Conn.Write (conn.go 397-491), one iteration per fuel unit. *)
-Fixpoint body_loop (fuel : nat) (g : nat -> Z) (s : st) (b : bytes) (total : Z)
+Fixpoint body_loop (fuel : nat) (g : nat -> Z * Z) (s : st) (b : bytes) (total : Z)
   : st * list ev * res :=
   match b with
   | [] => (s, [], ROk total)
@@ -196,8 +205,8 @@ Fixpoint body_loop (fuel : nat) (g : nat -> Z) (s : st) (b : bytes) (total : Z)
                                    if till <=? len then till else len
                  | None => len
                  end in
-      (* nested FillThrottleLocked: max = min(remaining, amountToWrite) *)
-      let mx := Z.min (g (gi s)) amt in
+      (* nested FillThrottleLocked on the local, then the global bucket *)
+      let mx := nested (fst (g (gi s))) (snd (g (gi s))) amt in
       match take mx b with
       | None => (s, [], RPanic)
       | Some (chunk, rest) =>
@@ -239,7 +248,7 @@ Fixpoint body_loop (fuel : nat) (g : nat -> Z) (s : st) (b : bytes) (total : Z)
 Definition lat_evs (s : st) : list ev :=
   match lat s with Some d => [Latency d] | None => [] end.
 
-Definition write (g : nat -> Z) (s : st) (b : bytes) : st * list ev * res :=
+Definition write (g : nat -> Z * Z) (s : st) (b : bytes) : st * list ev * res :=
   let s0 := clear_lat s in
   if negb (shaping s) then
     let '(i2, evs, r) := default_loop (S (length b)) g (gi s) b 0 in
@@ -262,7 +271,7 @@ Definition is_ok (r : res) : bool := match r with ROk _ => true | _ => false end
 
 (* A sequence of Write calls on one connection; stops at the first error
    (bufio.Writer keeps the error, the proxy then closes the connection). *)
-Fixpoint run (g : nat -> Z) (s : st) (ws : list bytes) : st * list ev * res :=
+Fixpoint run (g : nat -> Z * Z) (s : st) (ws : list bytes) : st * list ev * res :=
   match ws with
   | [] => (s, [], ROk 0)
   | w :: ws' =>
